@@ -192,27 +192,25 @@ func (v *Version) Compare(other *Version) int {
 		return compareInt(v.patch, other.patch)
 	}
 
-	// Handle pseudo-version comparison
-	if v.pseudo != nil && other.pseudo != nil {
-		return v.pseudo.timestamp.Compare(other.pseudo.timestamp)
-	}
-	if v.pseudo != nil && other.pseudo == nil {
-		// Pseudo-versions are pre-release, so they come before releases
-		if other.prerelease == "" {
-			return -1
-		}
-		// Compare with prerelease
-		return comparePrerelease("pseudo", other.prerelease)
-	}
-	if v.pseudo == nil && other.pseudo != nil {
-		if v.prerelease == "" {
-			return 1
-		}
-		return comparePrerelease(v.prerelease, "pseudo")
-	}
-
+	// Pseudo-versions are ordinary pre-release versions (that is what makes them
+	// sort between the tagged versions around them), so they are compared by
+	// their SemVer spelling like every other version.
 	// Compare prerelease according to semver rules
-	return comparePrerelease(v.prerelease, other.prerelease)
+	return comparePrerelease(v.semverPrerelease(), other.semverPrerelease())
+}
+
+// semverPrerelease returns the SemVer pre-release part of the version. For a
+// pseudo-version that is everything after the first hyphen of its text
+// (e.g. "0.20170915032832-14c0d48ead0c").
+func (v *Version) semverPrerelease() string {
+	if v.pseudo == nil {
+		return v.prerelease
+	}
+	text := strings.TrimSpace(v.original)
+	if i := strings.Index(text, "-"); i >= 0 {
+		return text[i+1:]
+	}
+	return ""
 }
 
 // String returns the string representation of the version
@@ -232,6 +230,10 @@ func compareInt(a, b int) int {
 }
 
 // comparePrerelease returns -1, 0, or 1 comparing prereleases where empty string (release) > any prerelease
+// comparePrerelease compares prerelease strings according to semver rules:
+// dot-separated identifiers are compared left to right, numeric identifiers
+// numerically and below alphanumeric ones, alphanumeric ones in ASCII order,
+// and a longer list wins when all preceding identifiers are equal.
 func comparePrerelease(a, b string) int {
 	// No prerelease (release) has higher precedence than prerelease
 	if a == "" && b == "" {
@@ -244,23 +246,46 @@ func comparePrerelease(a, b string) int {
 		return -1
 	}
 
-	// Special handling for pseudo-versions
-	if a == "pseudo" && b != "pseudo" {
-		return -1
+	aParts := strings.Split(a, ".")
+	bParts := strings.Split(b, ".")
+	for i := 0; i < len(aParts) && i < len(bParts); i++ {
+		if cmp := comparePrereleaseIdentifier(aParts[i], bParts[i]); cmp != 0 {
+			return cmp
+		}
 	}
-	if a != "pseudo" && b == "pseudo" {
-		return 1
-	}
-	if a == "pseudo" && b == "pseudo" {
-		return 0
-	}
+	return compareInt(len(aParts), len(bParts))
+}
 
-	// Lexicographic comparison for prereleases
-	if a < b {
+// comparePrereleaseIdentifier compares two prerelease identifiers
+func comparePrereleaseIdentifier(a, b string) int {
+	aNum, bNum := isNumericIdentifier(a), isNumericIdentifier(b)
+	switch {
+	case aNum && bNum:
+		// Compare as integers of any length
+		a = strings.TrimLeft(a, "0")
+		b = strings.TrimLeft(b, "0")
+		if len(a) != len(b) {
+			return compareInt(len(a), len(b))
+		}
+		return strings.Compare(a, b)
+	case aNum:
 		return -1
-	}
-	if a > b {
+	case bNum:
 		return 1
+	default:
+		return strings.Compare(a, b)
 	}
-	return 0
+}
+
+// isNumericIdentifier reports whether an identifier consists of digits only
+func isNumericIdentifier(s string) bool {
+	if s == "" {
+		return false
+	}
+	for i := 0; i < len(s); i++ {
+		if s[i] < '0' || s[i] > '9' {
+			return false
+		}
+	}
+	return true
 }
